@@ -183,7 +183,17 @@ func fullAt(ops []pool.Op, i int, limit bool) bool {
 
 // report confirms a failing history by running it again from scratch (same input,
 // same observation required) and records one violation per signature.
+var deferred []func()
+
 func report(c *fw.Ctx, env *pool.Env, ops []pool.Op, fs []pool.Finding, part string, limit bool) {
+	if limit && deferred != nil { // limit scenarios run first but report after the BFS, whose histories are minimal
+		deferred = append(deferred, func() { report1(c, env, ops, fs, part, limit) })
+		return
+	}
+	report1(c, env, ops, fs, part, limit)
+}
+
+func report1(c *fw.Ctx, env *pool.Env, ops []pool.Op, fs []pool.Finding, part string, limit bool) {
 	at, again := runHistory(env, ops, limit)
 	same := at == len(ops)-1
 	for _, f := range fs { // every signature must show again (the re-run may check more: last add of a limit run is checked fully)
@@ -258,6 +268,10 @@ func bfs(c *fw.Ctx, env *pool.Env, gen pool.Gen, depth, shardAt int) {
 	}
 	frontier := []bnode{root}
 	perDepth := map[string]int64{}
+	label := ""
+	if i := strings.Index(u.Name, "@"); i > 0 {
+		label = "_height" + u.Name[i+1:]
+	}
 	samples := 0
 	for lvl := 0; lvl < depth && len(frontier) > 0; lvl++ {
 		counting := lvl >= shardAt || c.Shard == 0 // the unsharded preamble is counted once
@@ -301,7 +315,7 @@ func bfs(c *fw.Ctx, env *pool.Env, gen pool.Gen, depth, shardAt int) {
 						c.NontrivialN(1)
 					}
 					c.Outcome(outcome(u, ref, op, obs, npend))
-					perDepth[fmt.Sprintf("histories_len_%d", lvl+1)]++
+					perDepth[fmt.Sprintf("histories_len_%d%s", lvl+1, label)]++
 				}
 				if len(fs) > 0 {
 					report(c, env, hist, fs, "a-histories", false)
@@ -404,6 +418,9 @@ func run(c *fw.Ctx) {
 	if v := os.Getenv("C17_DEPTH"); v != "" { // calibration knob; the depth used is recorded in the evidence
 		fmt.Sscan(v, &depth)
 	}
+	if v := os.Getenv("C17_SHARDAT"); v != "" { // calibration knob: BFS level at which the frontier is split over the workers
+		fmt.Sscan(v, &shardAt)
+	}
 	env := pool.NewEnv(u)
 	if err := env.VerifySigned(); err != nil {
 		panic("harness: " + err.Error())
@@ -411,9 +428,22 @@ func run(c *fw.Ctx) {
 	c.Note("bfs_depth", depth)
 	c.Note("bfs_universe", fmt.Sprintf("%d transactions / %d hashes, %d pack states", u.N(), u.NH(), gen.NK))
 	t0 := time.Now()
+	deferred = []func(){}
 	limits(c)
 	t1 := time.Now()
 	bfs(c, env, gen, depth, shardAt)
+	if c.Thorough() && !c.Expired() {
+		// second fork configuration: height 11 = proposal 023 (same-nonce tie-break by hash) not yet active
+		pool.SetHeight(11)
+		u2, gen2, _, _ := bfsUniverse("quick")
+		u2.Name = "bfs:quick@11"
+		bfs(c, pool.NewEnv(u2), gen2, 7, shardAt)
+		pool.SetHeight(20)
+	}
+	for _, f := range deferred {
+		f()
+	}
+	deferred = nil
 	if c.Shard == 0 {
 		c.Note("shard0_limit_s", t1.Sub(t0).Seconds())
 		c.Note("shard0_bfs_s", time.Since(t1).Seconds())
@@ -424,7 +454,15 @@ func envFor(name string) (*pool.Env, bool) {
 	p := strings.Split(name, ":")
 	switch p[0] {
 	case "bfs":
-		u, _, _, _ := bfsUniverse(p[1])
+		tier := p[1]
+		if i := strings.Index(tier, "@"); i > 0 {
+			var h uint64
+			fmt.Sscan(tier[i+1:], &h)
+			pool.SetHeight(h)
+			tier = tier[:i]
+		}
+		u, _, _, _ := bfsUniverse(tier)
+		u.Name = name
 		return pool.NewEnv(u), false
 	case "limit":
 		var n int
